@@ -1363,6 +1363,10 @@ def install(ex):
             lambda ex, st, args, kwargs, node: iter([(lit(_sq.quoter_name(args[0].obj)), st)]))
         add(_sq.requoter_of, "spec.requoter_of",
             lambda ex, st, args, kwargs, node: iter([(VConst(_sq.requoter_of(args[0].obj)), st)]))
+        from . import cmodel as _cm
+        add(_sq.c_inner, "spec.c_inner",
+            lambda ex, st, args, kwargs, node: _cm.inner_call_contract(
+                "quote_or_skip" if type(args[0].obj).__name__ == "_Quoter" else "do_unquote")(ex, st, args, kwargs, node))
         add(_sq.is_slash_stable, "spec.is_slash_stable",
             lambda ex, st, args, kwargs, node: iter([(VBool(_sq.is_slash_stable(args[0].obj)), st)]))
         add(_sq.skippable_text, "spec.skippable_text",
